@@ -406,7 +406,7 @@ func body(r *ev.Run) {
 		e.byExcess[x] = st.Sibling(func(c *config.AppConfig) { c.MerkleRoot.MaxBlockHeightExcess = x })
 	}
 	// deep reorganisations: every block of both branches is asked about afterwards
-	depths := []int{501, 1002}
+	depths := []int{501, 1002, 2001}
 	if r.Thorough() {
 		depths = []int{499, 500, 501, 1000, 1001, 1002, 2001}
 	}
